@@ -100,13 +100,12 @@ def run(chk: Check) -> None:
            kind='register-all')
     ad = prog.func('workchains.Waiting._awaitable_done')
     aparam = ad.params[1] if len(ad.params) > 1 else ''
-    pops = [n for n in ast.walk(ad.node) if isinstance(n, ast.Assign) and isinstance(n.value, ast.Call)
-            and norm(n.value.func) == 'self._awaiting.pop' and n.value.args and norm(n.value.args[0]) == aparam]
-    keyvar = norm(pops[0].targets[0]) if pops else None
+    from ..rules import Resolver
+    res = Resolver(ad)
     stores = [n for n in ast.walk(ad.node) if isinstance(n, ast.Assign) and len(n.targets) == 1
-              and isinstance(n.targets[0], ast.Subscript) and norm(n.targets[0].value).endswith('.ctx')
-              and norm(n.targets[0].slice) == keyvar and norm(n.value) == f'{aparam}.result()']
-    chk.ob('FWD-awaitable-result', ad, bool(pops) and bool(stores), 'a completed awaitable\'s result is stored in the context under '
+              and isinstance(n.targets[0], ast.Subscript) and norm(n.targets[0].value).endswith('.ctx')]
+    ok = len(stores) == 1 and res.text(stores[0].targets[0].slice) == f'self._awaiting.pop({aparam})' and res.text(stores[0].value) == f'{aparam}.result()'
+    chk.ob('FWD-awaitable-result', ad, ok, 'a completed awaitable\'s result is stored in the context under '
            'the key it was registered with', node=stores[0] if stores else ad.node, kind='result-into-context')
     chk.assumptions.append('resume(), pause(), kill() and done-callbacks run as separate event-loop callbacks or inside '
                            'uncontrolled calls: between a writer of the waiting future and its reader anything may run')
